@@ -90,6 +90,7 @@ func (c04) Generate(r *engine.Rand, index int, tier string) *engine.Scenario {
 		return sc
 	}
 	sc.Class = "sequence"
+	g.noOAM = index%4 == 2
 	n := r.Range(2, 8)
 	for i := 0; i < n; i++ {
 		switch k := r.Intn(16); {
@@ -134,6 +135,14 @@ func (c04) Generate(r *engine.Rand, index int, tier string) *engine.Scenario {
 	total := len(g.code)*2 + 8
 	for i, k := 0, r.Range(0, 4); i < k; i++ {
 		sc.Events = append(sc.Events, engine.Event{At: uint64(r.Intn(total)), K: "irq", A: uint16(r.Intn(5))})
+	}
+	if index%4 == 2 {
+		// OAM DMA transfers in flight while interrupts are dispatched (the pushes go to the stack in work
+		// RAM whatever the DMA engine is doing)
+		sc.Class = "sequence-dma"
+		for at := uint64(r.Intn(12)); at < uint64(total)*2; at += uint64(r.Range(30, 200)) {
+			sc.Events = append(sc.Events, engine.Event{At: at, K: "dma", V: engine.Pick(r, []uint8{0x00, 0x40, 0x80, 0xc0, 0xd0, 0xe0})})
+		}
 	}
 	sortEvents(sc.Events)
 	sc.Cycles = uint64(total)*2 + 80
